@@ -20,8 +20,9 @@
   `sanitize_css`, `svgAttrValAllowsRef` through `unescape` + `re.sub`) stay free of NUL/CR and stay empty when empty
   (H5.Props.C10bSan); disallowed tags (they become text: only "no NUL/CR" is needed of their names and attributes).
   ASSUMED of the input (`inTokOK`): allowed tags have names the tokenizer keeps as they are (`tagNameOK`) and are not
-  one of the raw-text / RCDATA / script / plaintext elements (`C08c.specialElements`: stated on the TOKENS, not on `L`
-  — the default `L` allows `textarea` and SVG `title`); their allow-listed attributes have well-formed names, pairwise
+  an HTML (or namespace-less) raw-text / RCDATA / script / plaintext element (`C08c.specialElements`: stated on the
+  TOKENS, not on `L` — the default `L` allows `textarea`; a FOREIGN element of such a name, e.g. the allow-listed SVG
+  `title`, is covered since the serializer fix COMMIT_A); their allow-listed attributes have well-formed names, pairwise
   distinct BARE names (the serializer drops the namespace prefix), values without NUL/CR, and an empty value when the
   serializer minimises them; text has no NUL/CR; DOCTYPEs are `doctypeOK`; no Entity / SerializeError tokens.
 
@@ -36,7 +37,7 @@ import H5.Props.C10bSan
 namespace H5.Props.C10b
 set_option linter.unusedSimpArgs false
 open H5 H5.Model.Sanitizer H5.Model.Regex H5.Spec
-open H5.Model.Serializer (Opts serialize)
+open H5.Model.Serializer (Opts serialize htmlOrNone)
 open H5.Props.C09 (filterE_mem mapE_mem filterE_sublist mapE_keys stepSvgRef_key stepStyle_key stepLocalHref_mem
   stepLocalHref_sublist tagKey tokAttrs isComment tagAllowed allowedToken_spec sanitizeToken_cases filterSC_mem
   C09_elements C09_attrs C09_uri C09_no_comments UriClause)
@@ -197,11 +198,11 @@ theorem disallowed_tag_ok (name : Str) (attrs : List Attr) (parts : List Str) (h
 def inTokOK (L : Lists) (o : Opts) : Tok → Bool
   | .startTag ns name attrs =>
     if elementAllowed L ns name then
-      startTagOK o name (stepAllowed L attrs) && !H5.Props.C08c.specialElements.elem name
+      startTagOK o name (stepAllowed L attrs) && (!H5.Props.C08c.specialElements.elem name || !htmlOrNone ns)
     else valueOK name && attrs.all plainAttr
   | .emptyTag ns name attrs =>
     if elementAllowed L ns name then
-      startTagOK o name (stepAllowed L attrs) && !H5.Props.C08c.specialElements.elem name
+      startTagOK o name (stepAllowed L attrs) && (!H5.Props.C08c.specialElements.elem name || !htmlOrNone ns)
     else valueOK name && attrs.all plainAttr
   | .endTag ns name => if elementAllowed L ns name then tagNameOK name else valueOK name
   | .chars s => valueOK s
@@ -218,14 +219,14 @@ def parsedOK (L : Lists) (o : Opts) (ts : List Tok) : Bool := ts.all (inTokOK L 
 theorem sanitizeToken_tokOK (L : Lists) (o : Opts) (t t' : Tok) (h : sanitizeToken L false t = .ok (some t'))
     (hin : inTokOK L o t = true) : tokOK o t' = true := by
   have startCase : ∀ (ns : Option Str) (name : Str) (attrs : List Attr) (mk : Option Str → Str → List Attr → Tok),
-      (∀ a b c, tokOK o (mk a b c) = (startTagOK o b c && !H5.Props.C08c.specialElements.elem b)) →
+      (∀ a b c, tokOK o (mk a b c) = (startTagOK o b c && (!H5.Props.C08c.specialElements.elem b || !htmlOrNone a))) →
       (if elementAllowed L ns name then
         (do let x ← allowedAttrs L name attrs; pure (mk ns name x) : Except PyErr Tok).map some
        else (do let parts ← mapE fmtAttr attrs
                 pure (Tok.chars (closeSelf false ([60] ++ name ++ parts.flatten ++ [62]))) : Except PyErr Tok).map some)
         = .ok (some t') →
       (if elementAllowed L ns name then
-          startTagOK o name (stepAllowed L attrs) && !H5.Props.C08c.specialElements.elem name
+          startTagOK o name (stepAllowed L attrs) && (!H5.Props.C08c.specialElements.elem name || !htmlOrNone ns)
         else valueOK name && attrs.all plainAttr) = true → tokOK o t' = true := by
     intro ns name attrs mk hmk h hin
     by_cases he : elementAllowed L ns name = true
@@ -303,7 +304,7 @@ theorem C10_retokenised_is_sanitized (L : Lists) (o : Opts) (ts out : List Tok) 
     ∃ text, renderSanitized L o ts = .ok (text, []) ∧
       Spec.tokenize .data none false text = .ok (out.flatMap (expected o)) ∧
       (Spec.tokenize .data none false text).map canon = .ok (canon (out.map (toTTok o))) := by
-  obtain ⟨text, h1, h2, h3⟩ := C08_stream_roundtrip o out hqc (C10_sanitized_tokOK L o ts out hf hp)
+  obtain ⟨text, h1, _, h2, h3⟩ := C08_stream_roundtrip o out hqc (C10_sanitized_tokOK L o ts out hf hp)
   exact ⟨text, by simp [renderSanitized, hf, h1, bind, Except.bind], h2, h3⟩
 
 /-! ### Theorem 3: every re-read token is allow-listed -/
@@ -318,7 +319,7 @@ only (namespaces are assigned by tree construction): "allow-listed" means allow-
 the one the sanitizer saw. -/
 def SafeTok (L : Lists) (ts : List Tok) : TTok → Prop
   | .startTag name attrs _ =>
-    (∃ ns, elementAllowed L ns name = true) ∧ H5.Props.C08c.specialElements.elem name = false ∧
+    (∃ ns, elementAllowed L ns name = true ∧ (H5.Props.C08c.specialElements.elem name = true → htmlOrNone ns = false)) ∧
     ∀ av ∈ attrs, ∃ ans, (ans, av.1) ∈ L.allowedAttributes ∧
       (L.attrValIsUri.elem (ans, av.1) = true → L.svgAttrValAllowsRef.elem (ans, av.1) = false →
         (ans, av.1) ≠ styleKey → UriClause L av.2)
@@ -360,8 +361,8 @@ theorem text_origin (L : Lists) (ts out : List Tok) (hf : filter L ts = .ok out)
 
 /-- **C10 (3) — the token-level core.**  Under the hypotheses of (2), every token the standard's tokenizer emits on
 the sanitized, serialized markup is safe with respect to the allow-lists `L`:
-* a start tag has a name that is allow-listed (under the namespace the sanitizer saw) and is not a raw-text / RCDATA
-  element; each of its attributes is on `allowedAttributes` (under the namespace the sanitizer saw), and if that key is
+* a start tag has a name that is allow-listed under the namespace the sanitizer saw — a foreign namespace if the name
+  is that of a raw-text / RCDATA element; each of its attributes is on `allowedAttributes` (under the namespace the sanitizer saw), and if that key is
   URI-valued (and not rewritten after the check) a browser resolves in its value no scheme or an allowed protocol
   (`UriClause`, H5.Props.C09);
 * an end tag has an allow-listed name;
@@ -380,13 +381,16 @@ theorem C10_retokenised_allowlisted (L : Lists) (o : Opts) (ts out : List Tok) (
   have htok : tokOK o t = true := List.all_eq_true.1 hok t ht
   have startCase : ∀ (ns : Option Str) (name : Str) (attrs : List Attr) (t0 : Tok), t0 ∈ out →
       tagKey t0 = some (ns, name) → tokAttrs t0 = attrs → t0.isTag = true →
-      H5.Props.C08c.specialElements.elem name = false →
+      (H5.Props.C08c.specialElements.elem name = false ∨ htmlOrNone ns = false) →
       SafeTok L ts (.startTag name (attrs.map fun a => (a.name, a.value))
         (H5.Gen.voidElements.elem name && o.useTrailingSolidus)) := by
     intro ns name attrs t0 ht0 hk ha htag hsp
     have hel := C09_elements L _ out hf t0 ht0 htag
     simp only [tagAllowed, hk] at hel
-    refine ⟨⟨ns, hel⟩, hsp, ?_⟩
+    refine ⟨⟨ns, hel, fun h => ?_⟩, ?_⟩
+    · rcases hsp with h2 | h2
+      · rw [h] at h2; cases h2
+      · exact h2
     intro av hav
     obtain ⟨b, hb, rfl⟩ := List.mem_map.1 hav
     have hbt : b ∈ tokAttrs t0 := by rw [ha]; exact hb
@@ -397,12 +401,12 @@ theorem C10_retokenised_allowlisted (L : Lists) (o : Opts) (ts out : List Tok) (
   | startTag ns name attrs =>
     simp only [expected, List.mem_singleton] at hte
     subst hte
-    simp only [tokOK, Bool.and_eq_true, Bool.not_eq_true'] at htok
+    simp only [tokOK, Bool.and_eq_true, Bool.or_eq_true, Bool.not_eq_true'] at htok
     exact startCase ns name attrs _ ht rfl rfl rfl htok.2
   | emptyTag ns name attrs =>
     simp only [expected, List.mem_singleton] at hte
     subst hte
-    simp only [tokOK, Bool.and_eq_true, Bool.not_eq_true'] at htok
+    simp only [tokOK, Bool.and_eq_true, Bool.or_eq_true, Bool.not_eq_true'] at htok
     exact startCase ns name attrs _ ht rfl rfl rfl htok.2
   | endTag ns name =>
     simp only [expected, List.mem_singleton] at hte
@@ -504,10 +508,21 @@ example : parsedOK scriptLists {} [.startTag hns (lit "script") [], .chars (lit 
       (fun r => Spec.tokenize .data none false r.1)
       = .ok [.startTag (lit "script") [] false, .startTag (lit "img") [] false] ∧
     elementAllowed scriptLists none (lit "img") = false := by decide +kernel
--- no raw-text element is on the DEFAULT allow-list (of `specialElements`, only `textarea` and SVG `title` are)
+-- no raw-text element is on the DEFAULT allow-list (of `specialElements`, only `textarea` and SVG `title` are; the
+-- latter is covered: see below)
 example : defaultLists.allowedElements.all (fun k => !H5.Gen.rcdataElements.elem k.2) = true ∧
     (defaultLists.allowedElements.filter (fun k => H5.Props.C08c.specialElements.elem k.2)).map (·.2)
       = [lit "textarea", lit "title"] := by decide +kernel
+
+-- SVG `title` (default lists) with a disallowed `<script>` inside: covered since fix COMMIT_A, the text is escaped
+def exSvg : List Tok :=
+  [.startTag svgns (lit "title") [], .startTag hns (lit "script") [], .chars (lit "x<y"), .endTag hns (lit "script"),
+   .endTag svgns (lit "title")]
+example : parsedOK defaultLists {} exSvg = true ∧ renderSanitized defaultLists {} exSvg
+    = .ok (lit "<title>&lt;script&gt;x&lt;y&lt;/script&gt;</title>", []) := by decide +kernel
+example : (renderSanitized defaultLists {} exSvg).bind (fun r => (Spec.tokenize .data none false r.1).map canon)
+    = .ok [.startTag (lit "title") [] false, .chars (lit "<script>x<y</script>"), .endTag (lit "title") [] false] := by
+  decide +kernel
 
 -- "no SerializeError / Entity tokens": the first is reported as an error, the second raises for an unknown name
 example : parsedOK defaultLists {} [.serr [101]] = false ∧ renderSanitized defaultLists {} [.serr [101]] = .ok ([], [[101]]) := by
